@@ -133,7 +133,7 @@ class KroneckerProductLinearOperator(LinearOperator):
             diag_tensor = ConstantDiagLinearOperator(diag, diag_shape=self.shape[-1])
         else:
             try:
-                expanded_diag = diag.expand(self.shape[:-1])
+                expanded_diag = diag.expand(torch.broadcast_shapes(self.shape[:-1], diag_shape))
             except RuntimeError:
                 raise RuntimeError(
                     "add_diag for LinearOperator of size {} received invalid diagonal of size {}.".format(
